@@ -1366,6 +1366,23 @@ def isna(x):
 isnull = isna
 
 
+def _dtype_kind(x):
+    dt = getattr(x, "dtype", x)
+    return getattr(dt, "kind", None) if not isinstance(dt, str) else {"int": "i", "int64": "i", "float": "f", "float64": "f", "bool": "b", "object": "O"}.get(dt)
+
+
+api = types.SimpleNamespace(
+    types=types.SimpleNamespace(
+        is_integer_dtype=lambda x: _dtype_kind(x) == "i",
+        is_float_dtype=lambda x: _dtype_kind(x) == "f",
+        is_numeric_dtype=lambda x: _dtype_kind(x) in ("i", "f", "b"),
+        is_bool_dtype=lambda x: _dtype_kind(x) == "b",
+        is_object_dtype=lambda x: _dtype_kind(x) == "O",
+        is_scalar=lambda x: not hasattr(x, "__len__") or isinstance(x, str),
+    )
+)
+
+
 def __getattr__(name):
     if name.startswith("__"):
         raise AttributeError(name)
